@@ -586,8 +586,8 @@ class Runner:
         for s in tc["struct"]["trace"]:
             if s["op"] == "obs":
                 steps.append(last)
-            elif s["op"] == "set":
-                last = "set-" + s["f"]
+            elif s["op"] in ("set", "mut"):
+                last = s["op"] + "-" + s["f"]
             else:
                 last = s["op"]
         fields = {f["name"]: f for f in u.schema["structs"][st["s"]]["fields"]}
